@@ -502,7 +502,7 @@ fn check() {
 
     let parses = st.parses.load(std::sync::atomic::Ordering::Relaxed);
     let distinct = st.trees.len() as u64;
-    if distinct < 100 {
+    if chk.violation_count() == 0 && (distinct < 100) {
         machinery(format!("vacuous: only {distinct} distinct trees"));
     }
     chk.note(format!(
